@@ -28,6 +28,7 @@ func init() {
 		opt.Hooks = 0.6
 		opt.Explicit = 1.0
 		opt.ErrorBias = true
+		opt.UnreturnedErr = 0.12
 		return semCheck(r, "C07", tier, seed, opt, []string{"first-error-not-returned", "call-after-failure"},
 			"fault enumeration: functions with an error result and k >= 1 error-capable call sites (error-returning converters and getters at top-level and nested paths, pre/post hooks) are executed once per failing site and per pair of failing sites (instrumented user functions fail on command with a distinct sentinel and log their calls); checks: the returned error is the sentinel of the first failing site in call order, no later site is called, nil when none fails; non-trivial = at least one error-capable site; distinct by file contents")
 	}
@@ -147,6 +148,19 @@ func semCheck(r *report.Report, prop, tier string, seed int64, opt gen.Options, 
 		func(cr *caseRun) bool { return cr.Impl.Status == 0 && cr.SemNote == "" && strings.Contains(cr.Impl.Output, " = ") },
 		func(cr *caseRun) [][2]string {
 			var vs [][2]string
+			if prop == "C07" && cr.Impl.Status == 0 && cr.Impl.HasOut {
+				// no error source in a function without error result (whatever the generator asked for)
+				for name, gf := range genFuncsOf(cr) {
+					if strings.Contains(gf.Header, "error") {
+						continue
+					}
+					for _, e := range gf.Entries {
+						if e.Err {
+							vs = append(vs, [2]string{"first-error-not-returned:error-source-in-function-without-error-result", name + ": " + e.Raw + "\n" + gf.Header})
+						}
+					}
+				}
+			}
 			if prop == "C10" && cr.C.Features["misfit-hook-reused"] > 0 && cr.Impl.Status == 0 {
 				vs = append(vs, [2]string{"hook-that-does-not-fit-the-method-accepted", "a hook that does not fit the method (declared for other operand types, or returning a concrete type instead of error) was accepted: the tool exited 0"})
 			}
